@@ -277,6 +277,9 @@ func vfPerType_C14(typ string) {
 		g.nilField = "*"
 		g.listLen = 1
 	}
+	if info := vfNodeInfo[typ]; len(info.StmtFields) > 0 {
+		g.stmtLeaf = vfChoice("stmtleaf", 4)
+	}
 	n := g.Node(typ)
 	var walk []dst.Node
 	dst.Inspect(n, func(x dst.Node) bool {
@@ -418,4 +421,105 @@ func VerifC14Root() {
 	vfAssert(dpost == apost, "same-number-of-post-calls")
 	vfAssert((dres == dst.Node(dNew)) == (ares == ast.Node(aNew)), "returns-what-astutil-returns")
 	vfAssert((dres == dst.Node(dOld)) == (ares == ast.Node(aOld)), "returns-what-astutil-returns")
+}
+
+
+// VerifC14Package: a *dst.Package root (files visited in file-name order, Name() = file name,
+// Index() < 0, Replace/Delete act on the Files map), differential against astutil on the mirrored
+// *ast.Package: same callbacks (including calls with a nil node), same names, same final file maps.
+func VerifC14Package() {
+	nfiles := 1 + vfChoice("nfiles", 2)
+	names := []string{"b.go", "a.go"}
+	dp := &dst.Package{Name: "p", Files: map[string]*dst.File{}}
+	ap := &ast.Package{Name: "p", Files: map[string]*ast.File{}}
+	dids := map[dst.Node]int{}
+	aids := map[ast.Node]int{}
+	for i := 0; i < nfiles; i++ {
+		df := &dst.File{Name: &dst.Ident{Name: "p"}}
+		af := &ast.File{Name: &ast.Ident{Name: "p"}}
+		dp.Files[names[i]], ap.Files[names[i]] = df, af
+		dids[df], aids[af] = i, i
+		dids[df.Name], aids[af.Name] = 10+i, 10+i
+	}
+	dids[dp], aids[ap] = 30, 30
+	op := vfChoice("op", 3) // at the first file visited: 0 nothing, 1 delete, 2 replace
+	target := vfChoice("target", nfiles)
+	var dlog, alog []vfLogEntry
+	dnew := &dst.File{Name: &dst.Ident{Name: "q"}}
+	anew := &ast.File{Name: &ast.Ident{Name: "q"}}
+	Apply(dp, func(c *Cursor) bool {
+		id := -1
+		if c.Node() != nil {
+			if k, ok := dids[c.Node()]; ok {
+				id = k
+			}
+		}
+		dlog = append(dlog, vfLogEntry{0, id, c.Name(), c.Index()})
+		if id == target {
+			switch op {
+			case 1:
+				c.Delete()
+			case 2:
+				c.Replace(dnew)
+			}
+		}
+		return true
+	}, func(c *Cursor) bool {
+		id := -1
+		if c.Node() != nil {
+			if k, ok := dids[c.Node()]; ok {
+				id = k
+			}
+		}
+		dlog = append(dlog, vfLogEntry{1, id, c.Name(), c.Index()})
+		return true
+	})
+	astutil.Apply(ap, func(c *astutil.Cursor) bool {
+		id := -1
+		if c.Node() != nil {
+			if k, ok := aids[c.Node()]; ok {
+				id = k
+			}
+		}
+		// go/ast nodes have Doc / Comment fields that dst does not have: astutil's calls for those
+		// (always nil here) have no counterpart
+		if c.Name() != "Doc" && c.Name() != "Comment" {
+			alog = append(alog, vfLogEntry{0, id, c.Name(), c.Index()})
+		}
+		if id == target {
+			switch op {
+			case 1:
+				c.Delete()
+			case 2:
+				c.Replace(anew)
+			}
+		}
+		return true
+	}, func(c *astutil.Cursor) bool {
+		id := -1
+		if c.Node() != nil {
+			if k, ok := aids[c.Node()]; ok {
+				id = k
+			}
+		}
+		if c.Name() != "Doc" && c.Name() != "Comment" {
+			alog = append(alog, vfLogEntry{1, id, c.Name(), c.Index()})
+		}
+		return true
+	})
+	vfReach("both-ran")
+	vfAssert(len(dlog) == len(alog), "package/same-number-of-callbacks")
+	for i := range dlog {
+		if i < len(alog) {
+			vfAssert(dlog[i] == alog[i], "package/same-callback")
+		}
+	}
+	vfAssert(len(dp.Files) == len(ap.Files), "package/same-file-map-size")
+	for name, af := range ap.Files {
+		df, ok := dp.Files[name]
+		vfAssert(ok, "package/same-file-map")
+		if ok {
+			vfAssert((af == anew) == (df == dnew), "package/same-file-map")
+		}
+	}
 }
